@@ -353,7 +353,10 @@ class PybindWrapper:
         if variable.default is None:
             variable_value = variable.name
         else:
+            # The default value is an expression of its own,
+            # it is not a name inside `namespace`.
             variable_value = variable.default
+            namespace = ""
 
         return '{prefix}{module_var}.attr("{variable_name}") = {namespace}{variable_value};'.format(
             prefix=prefix,
